@@ -14,6 +14,7 @@ QUICK_SOURCES = [
     ("glyphs3/kerning_ltr_and_rtl.glyphs", []),
     ("PartialKernException.designspace", []),
     ("dspace_rules/Basic.designspace", []),
+    ("dspace_rules/CustomFeatures.designspace", []),   # rules applied to three features at once
     ("glyphs3/IntermediateLayer.glyphs", []),
     ("glyphs3/COLRv1-gradient.glyphs", []),
     ("Vertical.ufo", []),
